@@ -24,8 +24,6 @@ def in_scope(t):
     for n, d in p['tasks'].items():
         if d['kind'] != 'action' or d['items'] >= 0 or d['retry']:
             return False
-        if any(e['to'] == 'pause' for k in ('succ', 'err', 'comp') for e in d[k]):
-            return False
     # a task name must not be instantiated twice (e.g. the same target named by on-success and on-complete)
     last = t['steps'][-1]['obs']
     names = [x['name'] for x in last['tk']]
